@@ -18,6 +18,7 @@ import (
 	"os"
 	"sort"
 	"strings"
+	"sync"
 	"time"
 
 	"github.com/gordian-engine/gordian/gassert/gasserttest"
@@ -28,6 +29,7 @@ import (
 	"github.com/gordian-engine/gordian/tm/tmengine"
 	"github.com/gordian-engine/gordian/tm/tmengine/tmelink"
 	"github.com/gordian-engine/gordian/tm/tmengine/tmelink/tmelinktest"
+	"github.com/gordian-engine/gordian/tm/tmstore"
 	"github.com/gordian-engine/gordian/tm/tmstore/tmmemstore"
 )
 
@@ -400,6 +402,103 @@ func (w *world) trView(v *tmconsensus.VersionedRoundView) string {
 		phHashes(v.ProposedHeaders), w.trPmap(v.PrevoteProofs), w.trPmap(v.PrecommitProofs), sum, w.trCProof(v.PrevCommitProof), w.trConsistent(v.ValidatorSet)})
 }
 
+// ---------- crash injection: store wrappers with a write budget ----------
+type budget struct {
+	mu        sync.Mutex
+	unlimited bool
+	left      int
+	attempts  int // write calls issued since the budget was armed (landed or dropped)
+}
+
+func (b *budget) take() bool {
+	b.mu.Lock()
+	defer b.mu.Unlock()
+	b.attempts++
+	if b.unlimited {
+		return true
+	}
+	if b.left > 0 {
+		b.left--
+		return true
+	}
+	return false
+}
+
+func (b *budget) arm(k int) {
+	b.mu.Lock()
+	b.unlimited, b.left, b.attempts = false, k, 0
+	b.mu.Unlock()
+}
+
+func (b *budget) disarm() {
+	b.mu.Lock()
+	b.unlimited, b.attempts = true, 0
+	b.mu.Unlock()
+}
+
+func (b *budget) seen() int {
+	b.mu.Lock()
+	defer b.mu.Unlock()
+	return b.attempts
+}
+
+type crashMirrorStore struct {
+	tmstore.MirrorStore
+	b *budget
+}
+
+func (s crashMirrorStore) SetNetworkHeightRound(ctx context.Context, vh uint64, vr uint32, ch uint64, cr uint32) error {
+	if !s.b.take() {
+		return nil
+	}
+	return s.MirrorStore.SetNetworkHeightRound(ctx, vh, vr, ch, cr)
+}
+
+type crashHeaderStore struct {
+	tmstore.CommittedHeaderStore
+	b *budget
+}
+
+func (s crashHeaderStore) SaveCommittedHeader(ctx context.Context, ch tmconsensus.CommittedHeader) error {
+	if !s.b.take() {
+		return nil
+	}
+	return s.CommittedHeaderStore.SaveCommittedHeader(ctx, ch)
+}
+
+type crashRoundStore struct {
+	tmstore.RoundStore
+	b *budget
+}
+
+func (s crashRoundStore) SaveRoundProposedHeader(ctx context.Context, ph tmconsensus.ProposedHeader) error {
+	if !s.b.take() {
+		return nil
+	}
+	return s.RoundStore.SaveRoundProposedHeader(ctx, ph)
+}
+
+func (s crashRoundStore) SaveRoundReplayedHeader(ctx context.Context, h tmconsensus.Header) error {
+	if !s.b.take() {
+		return nil
+	}
+	return s.RoundStore.SaveRoundReplayedHeader(ctx, h)
+}
+
+func (s crashRoundStore) OverwriteRoundPrevoteProofs(ctx context.Context, h uint64, r uint32, p tmconsensus.SparseSignatureCollection) error {
+	if !s.b.take() {
+		return nil
+	}
+	return s.RoundStore.OverwriteRoundPrevoteProofs(ctx, h, r, p)
+}
+
+func (s crashRoundStore) OverwriteRoundPrecommitProofs(ctx context.Context, h uint64, r uint32, p tmconsensus.SparseSignatureCollection) error {
+	if !s.b.take() {
+		return nil
+	}
+	return s.RoundStore.OverwriteRoundPrecommitProofs(ctx, h, r, p)
+}
+
 // ---------- one case ----------
 type hr struct {
 	h uint64
@@ -415,6 +514,14 @@ type runner struct {
 	cancel  context.CancelFunc
 	touched map[hr]bool
 	out     io.Writer
+
+	bud          *budget
+	pendingCrash int // >= 0: the operation in progress is delivered with this write budget, then the mirror restarts
+	mctx         context.Context
+	mcancel      context.CancelFunc
+	crashes      bool
+	failed       bool
+	redo         func() // redelivery of the operation that was cut short by a crash
 
 	// harness's own belief about the chain, used only to generate mostly-valid inputs
 	valsAt   map[uint64]valset // validator set the harness intends for a height
@@ -524,11 +631,68 @@ func (rn *runner) coqHdr(hd tmconsensus.Header, hashOK bool, cur, next valset) s
 }
 
 func (rn *runner) emit(op string, res uint64) {
+	if rn.failed {
+		return
+	}
+	if rn.pendingCrash >= 0 {
+		op = fmt.Sprintf("(XCrash %d %s)", rn.pendingCrash, op)
+		rn.pendingCrash = -1
+		if !rn.restartMirror(op) {
+			return
+		}
+	}
 	fmt.Fprintf(rn.out, "STEP %s @@ %d @@ %s\n", op, res, rn.observe())
+	if rn.redo != nil && rn.pendingCrash < 0 {
+		f := rn.redo
+		rn.redo = nil
+		f()
+	}
+}
+
+// stop the running mirror (as if the process died: writes beyond the budget never happened)
+// and start a new one on the same underlying stores
+func (rn *runner) restartMirror(op string) (ok bool) {
+	var v tmconsensus.VersionedRoundView
+	_ = rn.m.VotingView(rn.w.ctx, &v) // barrier: the kernel finished the iteration in progress
+	rn.mcancel()
+	rn.m.Wait()
+	rn.bud.disarm()
+	defer func() {
+		if r := recover(); r != nil {
+			rn.failed = true
+			fmt.Fprintf(rn.out, "RESTART-FAILED %s @@ panic: %v\n", op, r)
+			ok = false
+		}
+	}()
+	rn.startMirror()
+	return true
+}
+
+func (rn *runner) startMirror() {
+	log := slog.New(slog.NewTextHandler(io.Discard, nil))
+	mctx, mcancel := context.WithCancel(rn.w.ctx)
+	wd, wctx := gwatchdog.NewNopWatchdog(mctx, log)
+	cfg := rn.cfg
+	cfg.Watchdog = wd
+	cfg.ProposedHeaderFetcher = tmelinktest.NewPHFetcher(256, 0).ProposedHeaderFetcher()
+	cfg.GossipStrategyOut = make(chan tmelink.NetworkViewUpdate)
+	cfg.LagStateOut = make(chan tmelink.LagState)
+	cfg.ReplayedHeadersIn = make(chan tmelink.ReplayedHeaderRequest)
+	cfg.StateMachineRoundEntranceIn = make(chan tmengine.VerifMRoundEntrance)
+	cfg.StateMachineRoundViewOut = make(chan tmengine.VerifMRoundView)
+	m, err := tmengine.VerifNewInternalMirror(wctx, log, cfg)
+	if err != nil {
+		mcancel()
+		panic(fmt.Errorf("NewMirror returned an error: %w", err))
+	}
+	rn.m, rn.mctx, rn.mcancel = m, mctx, mcancel
 }
 
 // deliver a proposed header; waits for the asynchronous add to land in the round store
 func (rn *runner) doPH(ph tmconsensus.ProposedHeader, coq string) {
+	if rn.pendingCrash >= 0 {
+		rn.redo = func() { rn.stats["redelivered_ph"]++; rn.doPH(ph, coq) }
+	}
 	rn.touched[hr{ph.Header.Height, ph.Round}] = true
 	if ph.Header.Height > 0 {
 		rn.touched[hr{ph.Header.Height - 1, ph.Header.PrevCommitProof.Round}] = true
@@ -536,7 +700,15 @@ func (rn *runner) doPH(ph tmconsensus.ProposedHeader, coq string) {
 	ctx, cancel := context.WithTimeout(rn.w.ctx, 5*time.Second)
 	res := rn.m.HandleProposedHeader(ctx, ph)
 	cancel()
-	if res == tmconsensus.HandleProposedHeaderAccepted {
+	if res == tmconsensus.HandleProposedHeaderAccepted && rn.pendingCrash >= 0 {
+		// the add is asynchronous: wait until the kernel has issued its first store write for it
+		deadline := time.Now().Add(3 * time.Second)
+		for rn.bud.seen() == 0 && time.Now().Before(deadline) {
+			var v tmconsensus.VersionedRoundView
+			_ = rn.m.VotingView(rn.w.ctx, &v)
+		}
+		rn.knownPHs[hr{ph.Header.Height, ph.Round}] = append(rn.knownPHs[hr{ph.Header.Height, ph.Round}], ph)
+	} else if res == tmconsensus.HandleProposedHeaderAccepted {
 		deadline := time.Now().Add(3 * time.Second)
 		for {
 			phs, _, _, _ := rn.cfg.RoundStore.LoadRoundState(rn.w.ctx, ph.Header.Height, ph.Round)
@@ -564,6 +736,9 @@ type voteEntry struct {
 }
 
 func (rn *runner) doVotes(kind int, h uint64, r uint32, pkh string, entries []voteEntry) {
+	if rn.pendingCrash >= 0 {
+		rn.redo = func() { rn.stats["redelivered_votes"]++; rn.doVotes(kind, h, r, pkh, entries) }
+	}
 	rn.touched[hr{h, r}] = true
 	proofs := map[string][]gcrypto.SparseSignature{}
 	for _, e := range entries {
@@ -666,6 +841,23 @@ func allIdx(n int) []int {
 
 func (rn *runner) step() {
 	w := rn.w
+	if rn.failed {
+		return
+	}
+	if rn.crashes {
+		switch x := w.r.below(100); {
+		case x < 4: // clean restart
+			rn.stats["restart_clean"]++
+			if rn.restartMirror("XRestart") {
+				fmt.Fprintf(rn.out, "STEP XRestart @@ 0 @@ %s\n", rn.observe())
+			}
+			return
+		case x < 22: // the next operation is cut short after k store writes
+			rn.pendingCrash = w.r.below(5)
+			rn.bud.arm(rn.pendingCrash)
+			rn.stats[fmt.Sprintf("crash_budget_%d", rn.pendingCrash)]++
+		}
+	}
 	v, c := rn.views()
 	H, R := v.Height, v.Round
 	cur := rn.valsFor(H)
@@ -1018,6 +1210,8 @@ func (rn *runner) proposal(v, c *tmconsensus.VersionedRoundView, H uint64, R uin
 	}
 }
 
+var crashMode bool
+
 func runCase(idx int, seed uint64, nOps int, out io.Writer, stats map[string]int) {
 	ctx, cancel := context.WithCancel(context.Background())
 	defer cancel()
@@ -1029,13 +1223,11 @@ func runCase(idx int, seed uint64, nOps int, out io.Writer, stats map[string]int
 	if w.r.chance(1, 5) {
 		initH = 3
 	}
-	log := slog.New(slog.NewTextHandler(io.Discard, nil))
-	wd, wctx := gwatchdog.NewNopWatchdog(ctx, log)
-	_ = wd
+	bud := &budget{unlimited: true}
 	cfg := tmengine.VerifMirrorConfig{
-		Store:                tmmemstore.NewMirrorStore(),
-		CommittedHeaderStore: tmmemstore.NewCommittedHeaderStore(),
-		RoundStore:           tmmemstore.NewRoundStore(),
+		Store:                crashMirrorStore{tmmemstore.NewMirrorStore(), bud},
+		CommittedHeaderStore: crashHeaderStore{tmmemstore.NewCommittedHeaderStore(), bud},
+		RoundStore:           crashRoundStore{tmmemstore.NewRoundStore(), bud},
 		ValidatorStore:       tmmemstore.NewValidatorStore(w.hs),
 
 		InitialHeight:       initH,
@@ -1045,25 +1237,11 @@ func runCase(idx int, seed uint64, nOps int, out io.Writer, stats map[string]int
 		SignatureScheme:                   w.ss,
 		CommonMessageSignatureProofScheme: gcrypto.SimpleCommonMessageSignatureProofScheme{},
 
-		ProposedHeaderFetcher: tmelinktest.NewPHFetcher(256, 0).ProposedHeaderFetcher(),
-
-		GossipStrategyOut: make(chan tmelink.NetworkViewUpdate),
-		LagStateOut:       make(chan tmelink.LagState),
-
-		ReplayedHeadersIn: make(chan tmelink.ReplayedHeaderRequest),
-
-		StateMachineRoundEntranceIn: make(chan tmengine.VerifMRoundEntrance),
-		StateMachineRoundViewOut:    make(chan tmengine.VerifMRoundView),
-
-		Watchdog:  wd,
 		AssertEnv: gasserttest.DefaultEnv(),
 	}
-	m, err := tmengine.VerifNewInternalMirror(wctx, log, cfg)
-	if err != nil {
-		panic(err)
-	}
-	rn := &runner{w: w, m: m, cfg: cfg, initH: initH, genesis: genesis, cancel: cancel,
+	rn := &runner{w: w, cfg: cfg, initH: initH, genesis: genesis, cancel: cancel, bud: bud, pendingCrash: -1, crashes: crashMode,
 		touched: map[hr]bool{}, out: out, valsAt: map[uint64]valset{}, knownPHs: map[hr][]tmconsensus.ProposedHeader{}, stats: stats}
+	rn.startMirror()
 	internTab = map[string]string{}
 	internDefs = nil
 	internCase = idx
@@ -1071,23 +1249,27 @@ func runCase(idx int, seed uint64, nOps int, out io.Writer, stats map[string]int
 	for i := 0; i < nOps; i++ {
 		rn.step()
 	}
-	v, _ := rn.views()
-	stats[fmt.Sprintf("final_height_%d", v.Height-initH)]++
-	if v.Round > 0 {
-		stats["final_round_nonzero"]++
+	if !rn.failed {
+		v, _ := rn.views()
+		stats[fmt.Sprintf("final_height_%d", v.Height-initH)]++
+		if v.Round > 0 {
+			stats["final_round_nonzero"]++
+		}
 	}
 	for _, d := range internDefs {
 		fmt.Fprintln(out, d)
 	}
 	fmt.Fprintf(out, "END\n")
+	rn.mcancel()
+	rn.m.Wait()
 	cancel()
-	m.Wait()
 }
 
 func main() {
 	seed := flag.Uint64("seed", 1, "seed")
 	cases := flag.Int("cases", 10, "number of cases")
 	ops := flag.Int("ops", 25, "operations per case")
+	flag.BoolVar(&crashMode, "crashes", false, "inject crashes (write budgets) and restarts")
 	flag.Parse()
 	out := os.Stdout
 	stats := map[string]int{}
